@@ -46,6 +46,11 @@ CHECKS = {
    text="Proof (partial by hypothesis): for every fan-out k, every schedule of IO / non-IO instructions and every data, the simulator's protocol (SimSys) and the hardware's (HdlSys) keep an inductive invariant that implies: each consumer's stream is a prefix of the offered stream and at most one value behind, the producer passes r2owa only when every consumer holds the value, a consumer passes i2rw only by capturing. The schedule hypotheses s_ok/h_ok (no re-read while the previous capture is pending and valid is up; no new offer while received is up) are necessary - the unrestricted statements are refuted by vm_compute witnesses (finding F2, recorded as known findings c04_not_well_spaced_sim/hdl). Corollaries for one consumer: fixed padding >= 1 (simulator), >= 1 producer / >= 2 consumer (hardware) keep every execution inside the hypotheses. Liveness is not claimed.",
    design_ref="DESIGN.md section 5, C04",
    note="Trusted: Coq kernel; Net/Handshake.v automata (hand-derived from op_r2owa.go, op_i2rw.go, deferred.go, vm.go and the Verilog templates) tied by flag-level comparison on every tick/clock of generated machines; Vlog.Sem for the hardware half."),
+ "C17": dict(
+   technique="Coq proof on a labelled transition system of the Step barrier and the Stop shutdown (every worker is back at its select after a Step; closing quit releases all of them in every interleaving; without Stop no transition removes a worker) plus bookkeeping over call histories; goroutine counts and profiles as the tie",
+   text="Proof (thin, on models): the worker protocol of VM.Step / Processor_execute / VM.Stop is modelled as an LTS for any number of processors; proved: the round invariant, progress (a Step never blocks), termination measure, at the end of a Step every worker waits for its next instruction, the live-worker count is constant until Stop and Stop lets every worker exit. Bookkeeping: histories of complete single-shot simulations leave zero workers; the pre-fix code leaves n*(P+1) (refuted variant kept). The tie is dynamic: goroutine count and goroutine profile grouped by function around batches of SinglePipelineSimulate / Fitness_default calls (sequential and concurrent). Assembler instances leak their requirements server (known finding). Heap retention is measured, not proved.",
+   design_ref="DESIGN.md section 5, C17",
+   note="Trusted: Coq kernel; Front/Barrier.v, Front/Leak.v hand-written models; harness/c17.go goroutine accounting."),
 }
 NOT_APPLICABLE = []
 
